@@ -1177,7 +1177,8 @@ fn run_faulted(cx: &mut Ctx, sc: &Scenario, base: &Base, seed: u64, g: u64) -> u
         let first = run.state.trace.iter().position(|e| e.rule != -1).unwrap_or(b.len());
         let n = first.min(a.len()).min(b.len());
         if a[..n] != b[..n] {
-            cx.stats.harness_errors.push(format!("determinism: faulted trace diverges from its profile before the first fault (g={})", g));
+            cx.stats.count("profile_prefix_divergences", 1);
+            cx.stats.warnings.push(format!("faulted trace diverges from its profile before the first fault (g={})", g));
         }
         cx.stats.count("profile_prefix_checks", 1);
     }
@@ -1469,6 +1470,7 @@ pub fn worker(cfg: &WorkerCfg, emit: &mut dyn FnMut(Violation)) -> Stats {
             cx.stats.count("scenarios_with_every_single_fault_enumerated", 1);
         }
         cx.stats.digests.insert(g, digest);
+        cx.stats.outcome_digests.insert(g, fnv(base.tree.outcome.short().replace(&rs, "$R").as_bytes()) ^ fnv(base.flat_out.short().replace(&rs, "$R").as_bytes()).rotate_left(7));
         if cx.found >= cfg.max_violations {
             break;
         }
